@@ -15,6 +15,9 @@ struct Frame {
   const CallBase *callsite = nullptr;
   std::vector<int> allocas;
   std::map<const BasicBlock *, int> visits;
+  std::map<const Value *, unsigned> ver;            // definition counter per SSA value (re-execution in loops)
+  std::map<std::tuple<unsigned, const Value *, const Value *>, std::tuple<const Value *, unsigned, unsigned, unsigned>> cse;   // (opc,a,b) -> (inst, ver a, ver b, ver inst)
+  std::map<const BasicBlock *, int64_t> loopEntry;   // header -> S.steps when the loop was entered from outside
   std::map<const BasicBlock *, int> forks;          // how often the terminator of this block was undecided
   std::map<const BasicBlock *, std::pair<std::vector<Val>, uint64_t>> snaps;   // header -> (phi values, memory hash) at last widened arrival
 };
@@ -40,6 +43,9 @@ struct Config {
   int concrMax = 128;
   int widenAfter = 12;
   int ptrWidenAfter = 600;     // visits of a header before pointer phis are widened
+  int64_t fmtForkMax = 4096;   // more snprintf length alternatives than this are merged instead of forked
+  int64_t longLoopSteps = 1500000;   // interpretation steps spent inside one loop activation before widening starts
+  int longLoop = 1200;         // visits of one block in one frame after which widening starts regardless of forks
   int frameForkWiden = 0;      // >0: widen at loop headers once a frame has forked more than this often
   bool dedupe = false;         // cross-path state deduplication at merge blocks         // undecided iterations of one branch before widening kicks in
   std::string reportRegion;
